@@ -279,7 +279,7 @@ class MeiParser(object):
     def _compute_clef_octave(self, dis, dis_place):
         if dis is not None:
             sign = -1 if dis_place == "below" else 1
-            octave = sign * int(int(dis) / 8)
+            octave = sign * ((int(dis) - 1) // 7)
         else:
             octave = 0
         return octave
@@ -323,7 +323,7 @@ class MeiParser(object):
                     number is not None and sign is not None and line is not None
                 ):  # if there is clef info
                     octave = self._compute_clef_octave(
-                        element.get("dis"), element.get("dis.place")
+                        element.get("clef.dis"), element.get("clef.dis.place")
                     )
                 else:  # no clef info available, go for default
                     warnings.warn("No clef information found, setting G2 as default.")
